@@ -294,7 +294,7 @@ pub fn run(args: &Args) -> Report {
     }
     // ---- decode domain
     let alphabet = [0x00u8, 0x01, 0x03, 0x04, 0xff];
-    let tail_max = if thorough { 7 } else { 5 };
+    let tail_max = if thorough { 7 } else { 6 };
     let idpats: [[u8; 4]; 2] = [[0, 0, 0, 1], [0xff, 0x00, 0x03, 0x04]];
     let counters = Mutex::new((0u64, 0u64));
     std::thread::scope(|s| {
